@@ -91,6 +91,27 @@ func Assert(c bool, label string) {
 	}
 }
 
+// And / Or evaluate all operands (no short-circuit): under the engine the result is one
+// boolean term instead of a chain of forking branches.
+func And(c ...bool) bool {
+	r := true
+	for _, x := range c {
+		r = r && x
+	}
+	return r
+}
+
+func Or(c ...bool) bool {
+	r := false
+	for _, x := range c {
+		r = r || x
+	}
+	return r
+}
+
+// Implies is !a || b without a branch.
+func Implies(a, b bool) bool { return !a || b }
+
 func Reach(label string) { Trace = append(Trace, "R:"+label) }
 
 // NondetMapOrder makes the engine explore every iteration order of Go maps.
